@@ -185,6 +185,10 @@ func c02Check(c c02Case, st *stats.Run, count bool) error {
 		if c.Tail != "" {
 			ws := strings.Repeat(" \n\t\r\n", c.TailWS/5+1)[:c.TailWS]
 			switch c.Tail {
+			case "cut-before-end":
+				// the armored text stops before its END line (an interrupted transfer), TailWS further bytes earlier
+				text = text[:strings.Index(text, "-----END")]
+				text = text[:max(0, len(text)-c.TailWS)]
 			case "second-file":
 				text += ws + text
 			default:
@@ -884,6 +888,19 @@ func TestC02(t *testing.T) {
 				n++
 			}
 		}
+		// armored text cut before its END line, for every residue of the file length modulo the 48 bytes of a body line
+		for _, l0 := range []int{0, 100, chunk - 30} {
+			for l := l0; l < l0+48; l++ {
+				for _, cut := range []int{0, 1, 2, 65, 66} {
+					for _, d := range []hx.Delivery{whole, {Mode: "pieces", Pieces: []int{777}}} {
+						if s.Mine(n) {
+							yield(c02Case{PlainLen: l, PlainSeed: 16, Edit: c02Edit{Kind: "none"}, Plan: []int{4096}, Delivery: d, ArmorWrap: true, TailWS: cut, Tail: "cut-before-end"})
+						}
+						n++
+					}
+				}
+			}
+		}
 		// plaintexts of whole chunks, read in small pieces while other files are decrypted in between
 		for _, l := range []int{chunk, 2 * chunk} {
 			for _, c := range []c02Case{
@@ -901,7 +918,7 @@ func TestC02(t *testing.T) {
 				n++
 			}
 		}
-		s.St.Exhaust("armored files of 4 lengths: 0..5000 blank bytes after the END line (around the 1024 mark) followed by garbage or by a second armored file; truncated, flipped and extended payloads inside valid armor", int64(n))
+		s.St.Exhaust("armored files of 4 lengths: 0..5000 blank bytes after the END line (around the 1024 mark) followed by garbage or by a second armored file; armored text of 144 lengths (every residue modulo a body line) cut 0, 1, 2, 65, 66 bytes before its END line; truncated, flipped and extended payloads inside valid armor", int64(n))
 	}, check)
 	pbt.Rapid(s, "edits", s.N(4000, 25000), func(t *rapid.T) c02Case {
 		c := c02Gen(t)
@@ -909,7 +926,7 @@ func TestC02(t *testing.T) {
 		if rapid.IntRange(0, 4).Draw(t, "armorWrap") == 0 {
 			c.ArmorWrap = true
 			if rapid.IntRange(0, 2).Draw(t, "armorTail") == 0 {
-				c.Tail = rapid.SampledFrom([]string{"garbage", "second-file"}).Draw(t, "tail")
+				c.Tail = rapid.SampledFrom([]string{"garbage", "second-file", "cut-before-end"}).Draw(t, "tail")
 				c.TailWS = rapid.SampledFrom([]int{0, 1, 500, 1023, 1024, 1025, 3000}).Draw(t, "tailWS")
 			}
 		}
